@@ -169,6 +169,16 @@ CHECKS = {
    design="4 C13",
    note=COMMON_NOTE + "SHA-1 is a parameter of the theorems; the driver's SHA-1 and the harness's hashlib computation are compared through every case.",
    technique="Lean 4 proof (three modelled sites unified, table lemmas, kernel-evaluated parser examples) + end-to-end correspondence"),
+ "C15": dict(
+   text="convert: Lean theorems C15_fixed_width (X||Y is exactly 2w bytes, both halves read back as the coordinates; leading zero bytes are the general case; 64/96/132 by "
+        "C15_sizes), C15_total, C15_format_roundtrip / C15_array_roundtrip (tokenising the formatted array gives back exactly the bytes, for every byte list, column count "
+        "and indentation of spaces or tabs - induction over the bytes), C15_layout_only (options change formatting only). keys (partial: key generation and serialisation "
+        "are the cryptography library's): the model is the glue only, C15_keys_atomic (both files or none). Tie: NIST keys constructed so that X or Y has leading zero bytes "
+        "(found by search), Ed25519/Ed448, all layout options, through cmd_convert.main: whole C file vs model text, array tokenised and compared with the public key the "
+        "harness computes; keys over the complete 40-combination option space through cmd_keys.main, both files loaded with the standard loaders and paired.",
+   design="4 C15",
+   note=COMMON_NOTE + "The keys half is decided by direct checking over the complete finite option space, not by a theorem. Fixed findings F2, F3.",
+   technique="Lean 4 proof (fixed-width arithmetic, induction for the tokeniser round trip) + correspondence on the C text + exhaustive option-space check for keys"),
 }
 
 NA_REASON = "check not yet built in this revision (work in progress; DESIGN.md section 4 describes the planned model and theorems)"
